@@ -196,3 +196,30 @@ def embeddings_are_homomorphisms(env, cfg, ck):
     ck.eq('SE3.SO3:inverse', ck.call(lambda: sm.SE3.SO3(R.inv())).A, ck.call(lambda: sm.SE3.SO3(R).inv()).A)
     p3 = env.reals('w', 3)
     ck.eq('SE3.SO3:points', ck.call(lambda: sm.SE3.SO3(R) * p3), ck.call(lambda: R * p3))
+
+
+@contract('C04', targets=['spatialmath.pose3d.SE3.Twist3', 'spatialmath.twist.Twist3.SE3', 'spatialmath.super_pose.SMPose.log', 'spatialmath.pose3d.SE3.Exp',
+                          'spatialmath.base.transforms3d.trlog', 'spatialmath.quaternion.UnitQuaternion.__init__'],
+          configs=[{'axis': a} for a in ('1,-2,2', '-2,1,2', '2,3,-6', '1,2,2')], domain=False)
+def pose_twist_quaternion_round_trips_at_a_half_turn(env, cfg, ck):
+    """rotation by exactly pi about a non-coordinate axis whose components differ in sign (rational axis, so that the
+    matrix is exact): SE3 -> Twist3 -> SE3, SE3 -> log -> Exp and SE3 -> UnitQuaternion -> R reproduce the pose"""
+    np, sm, b = env.np, env.sm, env.base
+    a = [int(x) for x in cfg['axis'].split(',')]
+    n2 = sum(x * x for x in a)
+    import math
+    n = math.isqrt(n2)
+    assert n * n == n2
+    u = [env.const('%d/%d' % (x, n)) for x in a]
+    R = A.rodrigues(np, u, -1, 0)
+    t = [env.const('1/2'), env.const('-3/2'), env.const('2')]
+    T = A.homog(np, R, t)
+    X = sm.SE3(T, check=False)
+    tw = ck.call(X.Twist3)
+    ck.eq('SE3->Twist3->SE3', ck.call(tw.SE3).A, T, tol=1e-6, scale=10)
+    ck.eq('SE3->log->Exp', ck.call(sm.SE3.Exp, ck.call(X.log, twist=True)).A, T, tol=1e-6, scale=10)
+    ck.eq('twist-magnitude', A.normsq(np, tw.w), env.pi * env.pi, tol=1e-6)
+    q = ck.call(sm.UnitQuaternion, X)
+    ck.eq('SE3->UnitQuaternion->R', q.R, R, tol=1e-6)
+    S = sm.SO3(R, check=False)
+    ck.eq('SO3->log->Exp', ck.call(sm.SO3.Exp, ck.call(S.log, twist=True)).A, R, tol=1e-6)
